@@ -5,6 +5,7 @@
 #include <map>
 #include <memory>
 #include <csignal>
+#include <sys/time.h>
 
 #include "common.hpp"
 #include "world_spec.hpp"
@@ -148,9 +149,17 @@ namespace
         g_agg.print();
     }
 
-    // wall-clock watchdog: a single run normally takes milliseconds. If one run makes no progress for
-    // this long (library code looping without reaching any schedule point), report it and exit.
+    // CPU-time watchdog: a single run normally takes milliseconds. If one run burns this much user CPU time
+    // (library code looping without reaching any schedule point), report it and exit. CPU time, not wall
+    // time: a worker that is merely starved or blocked on its output pipe on a loaded machine is not stuck.
     constexpr unsigned STUCK_SECONDS = 40;
+    void arm_watchdog()
+    {
+        struct itimerval tv;
+        std::memset(&tv, 0, sizeof tv);
+        tv.it_value.tv_sec = STUCK_SECONDS;
+        setitimer(ITIMER_VIRTUAL, &tv, nullptr);
+    }
     void on_alarm(int)
     {
         g_cur.res.verdict = "violation";
@@ -159,7 +168,7 @@ namespace
         if (vw::g_current_op >= 0 && vw::g_current_op < static_cast<int>(g_cur.spec.history.size()))
             during = vw::hop_name(g_cur.spec.history[static_cast<std::size_t>(vw::g_current_op)].kind);
         g_cur.res.key = "stuck:world:" + during;
-        g_cur.res.detail = "no progress for " + std::to_string(STUCK_SECONDS) + " s of wall-clock time inside one simulated run (op#"
+        g_cur.res.detail = "no progress for " + std::to_string(STUCK_SECONDS) + " s of CPU time inside one simulated run (op#"
                            + std::to_string(vw::g_current_op) + " " + during + "): library code loops without reaching a schedule point";
         g_cur.res.st = vsim::current_stats();
         if (!g_cur.replaying && g_args.gates("stuck"))
@@ -221,7 +230,7 @@ namespace
     // sanitizer reports are attributed to a run from the moment its generation starts
     void begin_window()
     {
-        alarm(STUCK_SECONDS);
+        arm_watchdog();
         g_cap.begin_run();
         g_tsan0 = vsim::tsan_reports();
     }
@@ -305,7 +314,7 @@ extern "C" void __sanitizer_set_death_callback(void (*callback)(void));
 int main(int argc, char** argv)
 {
     __sanitizer_set_death_callback(&on_sanitizer_death);
-    signal(SIGALRM, &on_alarm);
+    signal(SIGVTALRM, &on_alarm);
     signal(SIGABRT, &on_abort);
     g_args = vh::parse_args(argc, argv);
     g_cap.start();
